@@ -87,6 +87,27 @@ theorem text_injective (r r' : Role) (bs bs' : Bytes)
   rw [h, bech32_roundtrip r bs' h1' h2'] at a
   exact (Option.some.inj a).symm
 
+/-- 5'. Without the length bound: distinct (role, non-empty bytes) pairs never share a text, even
+beyond 255 bytes where the reader rejects the text. -/
+theorem text_injective_nonempty (r r' : Role) (bs bs' : Bytes) (hb : bs ≠ []) (hb' : bs' ≠ [])
+    (h : addrToText r bs = addrToText r' bs') : r = r' ∧ bs = bs' := by
+  have hc : addrToChars r bs = addrToChars r' bs' := by
+    rw [← addrToText_toList, ← addrToText_toList, h]
+  unfold addrToChars convertAndEncodeChars at hc
+  rw [isEmpty_false_of_ne_nil bs hb, isEmpty_false_of_ne_nil bs' hb'] at hc
+  obtain ⟨syms, e1, hs, _, back⟩ := convertBits_roundtrip_full (bs.map UInt8.toNat) (bytes_lt bs)
+  obtain ⟨syms', e1', hs', _, back'⟩ := convertBits_roundtrip_full (bs'.map UInt8.toNat) (bytes_lt bs')
+  simp only [e1, e1', Option.getD_some, Bool.false_eq_true, if_false] at hc
+  have d := decodeNoLimit_encodeChars (prefixChars r) syms (prefixChars_ok r) hs
+  rw [hc, decodeNoLimit_encodeChars (prefixChars r') syms' (prefixChars_ok r') hs'] at d
+  have d' := Option.some.inj d
+  have hp : prefixChars r' = prefixChars r := congrArg Prod.fst d'
+  have hsy : syms' = syms := congrArg Prod.snd d'
+  refine ⟨(prefixChars_inj hp).symm, ?_⟩
+  rw [hsy, back] at back'
+  have hm := congrArg (List.map UInt8.ofNat) (Option.some.inj back')
+  rwa [map_ofNat_toNat, map_ofNat_toNat] at hm
+
 /-- The model's prefixes are the hub's constants. -/
 theorem prefixOf_eq (r : Role) : String.ofList (prefixChars r) = prefixOf r := by
   rw [← prefixOf_toList]; exact String.ofList_toList
@@ -127,8 +148,10 @@ example : addrToText .acc [0x00, 0x00, 0x00, 0x00, 0x00, 0x00, 0x00, 0x00, 0x00,
 example : addrFromText .acc "sent1qqqqqqqqqqqqqqqqqqqqqqqqqqqqqqqqgckxrj" = some [0x00, 0x00, 0x00, 0x00, 0x00, 0x00, 0x00, 0x00, 0x00, 0x00, 0x00, 0x00, 0x00, 0x00, 0x00, 0x00, 0x00, 0x00, 0x00, 0x00] := by decide +kernel
 example : addrToText .acc [0xb3, 0xfe, 0xe9, 0x23, 0x2f, 0x8a, 0xf2, 0x21, 0x1f, 0x9e, 0xe4, 0x91, 0xc5, 0xb1, 0x0b, 0xec, 0xb5, 0x56, 0x3b, 0xfc, 0x1e, 0x6f, 0x93, 0x42, 0x7e, 0xcb, 0xc8, 0xfe, 0x29, 0x55, 0xe5, 0xcd] = "sent1k0lwjge03tezz8u7ujgutvgtaj64vwlurehexsn7e0y0u224uhxszqwchf" := by decide +kernel
 example : addrFromText .acc "sent1k0lwjge03tezz8u7ujgutvgtaj64vwlurehexsn7e0y0u224uhxszqwchf" = some [0xb3, 0xfe, 0xe9, 0x23, 0x2f, 0x8a, 0xf2, 0x21, 0x1f, 0x9e, 0xe4, 0x91, 0xc5, 0xb1, 0x0b, 0xec, 0xb5, 0x56, 0x3b, 0xfc, 0x1e, 0x6f, 0x93, 0x42, 0x7e, 0xcb, 0xc8, 0xfe, 0x29, 0x55, 0xe5, 0xcd] := by decide +kernel
-example : addrToText .acc (List.replicate 255 0xff) = "sent1llllllllllllllllllllllllllllllllllllllllllllllllllllllllllllllllllllllllllllllllllllllllllllllllllllllllllllllllllllllllllllllllllllllllllllllllllllllllllllllllllllllllllllllllllllllllllllllllllllllllllllllllllllllllllllllllllllllllllllllllllllllllllllllllllllllllllllllllllllllllllllllllllllllllllllllllllllllllllllllllllllllllllllllllllllllllllllllllllllllllllllllllllllllllllllllllllllllllllllllllllllllllyvyyap" := by decide +kernel
-example : addrFromText .acc "sent1llllllllllllllllllllllllllllllllllllllllllllllllllllllllllllllllllllllllllllllllllllllllllllllllllllllllllllllllllllllllllllllllllllllllllllllllllllllllllllllllllllllllllllllllllllllllllllllllllllllllllllllllllllllllllllllllllllllllllllllllllllllllllllllllllllllllllllllllllllllllllllllllllllllllllllllllllllllllllllllllllllllllllllllllllllllllllllllllllllllllllllllllllllllllllllllllllllllllllllllllllllllllyvyyap" = some (List.replicate 255 0xff) := by decide +kernel
+theorem vec255_acc : addrToText .acc (List.replicate 255 0xff) = "sent1llllllllllllllllllllllllllllllllllllllllllllllllllllllllllllllllllllllllllllllllllllllllllllllllllllllllllllllllllllllllllllllllllllllllllllllllllllllllllllllllllllllllllllllllllllllllllllllllllllllllllllllllllllllllllllllllllllllllllllllllllllllllllllllllllllllllllllllllllllllllllllllllllllllllllllllllllllllllllllllllllllllllllllllllllllllllllllllllllllllllllllllllllllllllllllllllllllllllllllllllllllllllyvyyap" := by decide +kernel
+example : addrFromText .acc "sent1llllllllllllllllllllllllllllllllllllllllllllllllllllllllllllllllllllllllllllllllllllllllllllllllllllllllllllllllllllllllllllllllllllllllllllllllllllllllllllllllllllllllllllllllllllllllllllllllllllllllllllllllllllllllllllllllllllllllllllllllllllllllllllllllllllllllllllllllllllllllllllllllllllllllllllllllllllllllllllllllllllllllllllllllllllllllllllllllllllllllllllllllllllllllllllllllllllllllllllllllllllllllyvyyap" = some (List.replicate 255 0xff) := by
+  rw [← vec255_acc]
+  exact bech32_roundtrip .acc (List.replicate 255 0xff) (by rw [List.length_replicate]; omega) (by rw [List.length_replicate]; omega)
 example : addrToText .node [0x00] = "sentnode1qql0xtsr" := by decide +kernel
 example : addrFromText .node "sentnode1qql0xtsr" = some [0x00] := by decide +kernel
 example : addrToText .node [0xff] = "sentnode1lu66fuj8" := by decide +kernel
@@ -137,8 +160,10 @@ example : addrToText .node [0x00, 0x00, 0x00, 0x00, 0x00, 0x00, 0x00, 0x00, 0x00
 example : addrFromText .node "sentnode1qqqqqqqqqqqqqqqqqqqqqqqqqqqqqqqq7whlxy" = some [0x00, 0x00, 0x00, 0x00, 0x00, 0x00, 0x00, 0x00, 0x00, 0x00, 0x00, 0x00, 0x00, 0x00, 0x00, 0x00, 0x00, 0x00, 0x00, 0x00] := by decide +kernel
 example : addrToText .node [0x2b, 0xa5, 0xeb, 0xdb, 0x4f, 0xcd, 0x29, 0x1e, 0xa9, 0x98, 0xd7, 0xbc, 0xf6, 0x46, 0x99, 0xaf, 0x0e, 0x60, 0x71, 0xe5, 0x2b, 0x4b, 0xbe, 0xd5, 0xb8, 0x7b, 0xe1, 0xca, 0x85, 0x3a, 0x74, 0x5c] = "sentnode19wj7hk60e553a2vc6770v35e4u8xqu099d9ma4dc00su4pf6w3wq40dvuu" := by decide +kernel
 example : addrFromText .node "sentnode19wj7hk60e553a2vc6770v35e4u8xqu099d9ma4dc00su4pf6w3wq40dvuu" = some [0x2b, 0xa5, 0xeb, 0xdb, 0x4f, 0xcd, 0x29, 0x1e, 0xa9, 0x98, 0xd7, 0xbc, 0xf6, 0x46, 0x99, 0xaf, 0x0e, 0x60, 0x71, 0xe5, 0x2b, 0x4b, 0xbe, 0xd5, 0xb8, 0x7b, 0xe1, 0xca, 0x85, 0x3a, 0x74, 0x5c] := by decide +kernel
-example : addrToText .node (List.replicate 255 0xff) = "sentnode1llllllllllllllllllllllllllllllllllllllllllllllllllllllllllllllllllllllllllllllllllllllllllllllllllllllllllllllllllllllllllllllllllllllllllllllllllllllllllllllllllllllllllllllllllllllllllllllllllllllllllllllllllllllllllllllllllllllllllllllllllllllllllllllllllllllllllllllllllllllllllllllllllllllllllllllllllllllllllllllllllllllllllllllllllllllllllllllllllllllllllllllllllllllllllllllllllllllllllllllllllllllll4ej737" := by decide +kernel
-example : addrFromText .node "sentnode1llllllllllllllllllllllllllllllllllllllllllllllllllllllllllllllllllllllllllllllllllllllllllllllllllllllllllllllllllllllllllllllllllllllllllllllllllllllllllllllllllllllllllllllllllllllllllllllllllllllllllllllllllllllllllllllllllllllllllllllllllllllllllllllllllllllllllllllllllllllllllllllllllllllllllllllllllllllllllllllllllllllllllllllllllllllllllllllllllllllllllllllllllllllllllllllllllllllllllllllllllllllll4ej737" = some (List.replicate 255 0xff) := by decide +kernel
+theorem vec255_node : addrToText .node (List.replicate 255 0xff) = "sentnode1llllllllllllllllllllllllllllllllllllllllllllllllllllllllllllllllllllllllllllllllllllllllllllllllllllllllllllllllllllllllllllllllllllllllllllllllllllllllllllllllllllllllllllllllllllllllllllllllllllllllllllllllllllllllllllllllllllllllllllllllllllllllllllllllllllllllllllllllllllllllllllllllllllllllllllllllllllllllllllllllllllllllllllllllllllllllllllllllllllllllllllllllllllllllllllllllllllllllllllllllllllllll4ej737" := by decide +kernel
+example : addrFromText .node "sentnode1llllllllllllllllllllllllllllllllllllllllllllllllllllllllllllllllllllllllllllllllllllllllllllllllllllllllllllllllllllllllllllllllllllllllllllllllllllllllllllllllllllllllllllllllllllllllllllllllllllllllllllllllllllllllllllllllllllllllllllllllllllllllllllllllllllllllllllllllllllllllllllllllllllllllllllllllllllllllllllllllllllllllllllllllllllllllllllllllllllllllllllllllllllllllllllllllllllllllllllllllllllllll4ej737" = some (List.replicate 255 0xff) := by
+  rw [← vec255_node]
+  exact bech32_roundtrip .node (List.replicate 255 0xff) (by rw [List.length_replicate]; omega) (by rw [List.length_replicate]; omega)
 example : addrToText .prov [0x00] = "sentprov1qqshc4qn" := by decide +kernel
 example : addrFromText .prov "sentprov1qqshc4qn" = some [0x00] := by decide +kernel
 example : addrToText .prov [0xff] = "sentprov1lu4zhzzh" := by decide +kernel
@@ -147,7 +172,9 @@ example : addrToText .prov [0x00, 0x00, 0x00, 0x00, 0x00, 0x00, 0x00, 0x00, 0x00
 example : addrFromText .prov "sentprov1qqqqqqqqqqqqqqqqqqqqqqqqqqqqqqqqq02ac2" = some [0x00, 0x00, 0x00, 0x00, 0x00, 0x00, 0x00, 0x00, 0x00, 0x00, 0x00, 0x00, 0x00, 0x00, 0x00, 0x00, 0x00, 0x00, 0x00, 0x00] := by decide +kernel
 example : addrToText .prov [0x9e, 0x31, 0xfe, 0xd3, 0xed, 0x07, 0x1d, 0x78, 0xd8, 0x47, 0x79, 0x02, 0x7b, 0xb6, 0x7b, 0x2f, 0xf4, 0xc6, 0xdb, 0xab, 0xf3, 0x15, 0x71, 0x19, 0xe7, 0x7a, 0x13, 0x5c, 0x65, 0x23, 0x85, 0x2a] = "sentprov1nccla5ldquwh3kz80yp8hdnm9l6vdkat7v2hzx080gf4cefrs54qk28pak" := by decide +kernel
 example : addrFromText .prov "sentprov1nccla5ldquwh3kz80yp8hdnm9l6vdkat7v2hzx080gf4cefrs54qk28pak" = some [0x9e, 0x31, 0xfe, 0xd3, 0xed, 0x07, 0x1d, 0x78, 0xd8, 0x47, 0x79, 0x02, 0x7b, 0xb6, 0x7b, 0x2f, 0xf4, 0xc6, 0xdb, 0xab, 0xf3, 0x15, 0x71, 0x19, 0xe7, 0x7a, 0x13, 0x5c, 0x65, 0x23, 0x85, 0x2a] := by decide +kernel
-example : addrToText .prov (List.replicate 255 0xff) = "sentprov1llllllllllllllllllllllllllllllllllllllllllllllllllllllllllllllllllllllllllllllllllllllllllllllllllllllllllllllllllllllllllllllllllllllllllllllllllllllllllllllllllllllllllllllllllllllllllllllllllllllllllllllllllllllllllllllllllllllllllllllllllllllllllllllllllllllllllllllllllllllllllllllllllllllllllllllllllllllllllllllllllllllllllllllllllllllllllllllllllllllllllllllllllllllllllllllllllllllllllllllllllllllllqqxy48" := by decide +kernel
-example : addrFromText .prov "sentprov1llllllllllllllllllllllllllllllllllllllllllllllllllllllllllllllllllllllllllllllllllllllllllllllllllllllllllllllllllllllllllllllllllllllllllllllllllllllllllllllllllllllllllllllllllllllllllllllllllllllllllllllllllllllllllllllllllllllllllllllllllllllllllllllllllllllllllllllllllllllllllllllllllllllllllllllllllllllllllllllllllllllllllllllllllllllllllllllllllllllllllllllllllllllllllllllllllllllllllllllllllllllllqqxy48" = some (List.replicate 255 0xff) := by decide +kernel
+theorem vec255_prov : addrToText .prov (List.replicate 255 0xff) = "sentprov1llllllllllllllllllllllllllllllllllllllllllllllllllllllllllllllllllllllllllllllllllllllllllllllllllllllllllllllllllllllllllllllllllllllllllllllllllllllllllllllllllllllllllllllllllllllllllllllllllllllllllllllllllllllllllllllllllllllllllllllllllllllllllllllllllllllllllllllllllllllllllllllllllllllllllllllllllllllllllllllllllllllllllllllllllllllllllllllllllllllllllllllllllllllllllllllllllllllllllllllllllllllllqqxy48" := by decide +kernel
+example : addrFromText .prov "sentprov1llllllllllllllllllllllllllllllllllllllllllllllllllllllllllllllllllllllllllllllllllllllllllllllllllllllllllllllllllllllllllllllllllllllllllllllllllllllllllllllllllllllllllllllllllllllllllllllllllllllllllllllllllllllllllllllllllllllllllllllllllllllllllllllllllllllllllllllllllllllllllllllllllllllllllllllllllllllllllllllllllllllllllllllllllllllllllllllllllllllllllllllllllllllllllllllllllllllllllllllllllllllllqqxy48" = some (List.replicate 255 0xff) := by
+  rw [← vec255_prov]
+  exact bech32_roundtrip .prov (List.replicate 255 0xff) (by rw [List.length_replicate]; omega) (by rw [List.length_replicate]; omega)
 
 end Hub.Props.C17
